@@ -24,9 +24,7 @@ vars == <<phase, cs>>
 
 Kinds == {"msg", "not", "req", "resp", "ses"}
 NodeForms == {"", "full", "ident", "name", "dom"}     \* "dom": no name part (@domain/instance)
-Methods == IF Tier = "thorough"
-           THEN {"get", "set", "delete", "subscribe", "unsubscribe", "observe", "merge"}
-           ELSE {"get", "set", "observe"}
+Methods == {"get", "set", "delete", "subscribe", "unsubscribe", "observe", "merge"}
 Events == {"accepted", "dispatched", "received", "consumed", "failed"}
 States == {"new", "negotiating", "authenticating", "established", "finishing", "finished", "failed"}
 Auths == {"", "guest", "plain", "key", "transport", "external"}
@@ -112,7 +110,7 @@ Classify(K) ==
 (* A wire tree is a function from the field paths of a valid encoding to a   *)
 (* shape.  "ok" = the valid value; deviations: absent, null, and each wrong  *)
 (* JSON type.  Nested documents contribute the paths of their own fields.    *)
-Shapes == {"ok", "abs", "null", "str", "empty", "num", "bool", "obj", "arr"}   \* "empty" = the empty string
+Shapes == {"ok", "abs", "null", "str", "empty", "num", "neg", "bool", "obj", "arr"}   \* "empty" = the empty string, "neg" = a negative number
 (* base encodings: one per kind and document shape *)
 MutBases ==
   {[h |-> Hdr("x", "full", "full", "ident", "y"), b |-> b] :
@@ -133,7 +131,7 @@ DocPathsS(p, spec) ==
   ELSE IF Head(spec) = "cont"
   THEN {p \o <<"type">>, p \o <<"value">>} \cup DocPathsS(p \o <<"value">>, Tail(spec))
   ELSE IF Head(spec) = "coll"
-  THEN {p \o <<"itemType">>, p \o <<"items">>, p \o <<"items", "0">>} \cup DocPathsS(p \o <<"items", "0">>, Tail(spec))
+  THEN {p \o <<"itemType">>, p \o <<"items">>, p \o <<"items", "0">>, p \o <<"total">>} \cup DocPathsS(p \o <<"items", "0">>, Tail(spec))
   ELSE {}
 DocSpec(d) == d.spec
 Paths(e) ==
@@ -160,7 +158,7 @@ React(p, s) ==
   ELSE IF IsRaw(p) THEN "set"                                  \* checked by the document decode below
   ELSE IF TextLike(p) THEN (IF s \in {"str", "empty"} THEN "set" ELSE "err")
   ELSE IF EnumLike(p) THEN "err"                               \* "str" here = a string the type rejects
-  ELSE IF Last(p) = "code" THEN (IF s = "num" THEN "set" ELSE "err")
+  ELSE IF Last(p) \in {"code", "total"} THEN (IF s \in {"num", "neg"} THEN "set" ELSE "err")   \* (the count of a collection is informational)
   ELSE IF ListLike(p) THEN (IF s = "arr" THEN "set" ELSE "err")   \* "arr" = empty array
   ELSE IF ObjLike(p) THEN (IF s = "obj" THEN "set" ELSE "err")    \* "obj" = empty object
   ELSE "err"
@@ -249,6 +247,7 @@ DocOutcome(p, spec, dev) ==     \* p: path of the raw value holding a document o
   ELSE IF Head(spec) = "coll"
   THEN IF sh # "ok" THEN "err"
        ELSE IF React(p \o <<"itemType">>, Sh(dev, p \o <<"itemType">>)) # "set" THEN "err"
+       ELSE IF React(p \o <<"total">>, Sh(dev, p \o <<"total">>)) = "err" THEN "err"     \* (absent or null: fine)
        ELSE LET ish == Sh(dev, p \o <<"items">>) IN
             IF ish \in {"abs", "null", "arr"} THEN "ok"               \* no items to decode
             ELSE IF ish # "ok" THEN "err"
